@@ -59,15 +59,6 @@ fn add_types(builder: &mut TypesBuilder, types: &Types) {
   }
 }
 
-fn get_types(lang: &SgLang) -> Option<&Types> {
-  for (l, types) in unsafe { &*addr_of!(LANG_GLOBS) } {
-    if l == lang {
-      return Some(types);
-    }
-  }
-  None
-}
-
 pub fn merge_types(types_vec: impl Iterator<Item = Types>) -> Types {
   let mut builder = TypesBuilder::new();
   for types in types_vec {
@@ -83,12 +74,19 @@ pub fn merge_types(types_vec: impl Iterator<Item = Types>) -> Types {
 }
 
 pub fn merge_globs(lang: &SgLang, type1: Types) -> Types {
-  let Some(type2) = get_types(lang) else {
-    return type1;
-  };
   let mut builder = TypesBuilder::new();
   add_types(&mut builder, &type1);
-  add_types(&mut builder, type2);
+  let mut registered = false;
+  // a language can be registered under several of its names (js, javascript): every entry counts
+  for (l, types) in unsafe { &*addr_of!(LANG_GLOBS) } {
+    if l == lang {
+      add_types(&mut builder, types);
+      registered = true;
+    }
+  }
+  if !registered {
+    return type1;
+  }
   builder.select(&lang.to_string());
   builder.build().expect("file type must be valid")
 }
